@@ -1086,15 +1086,18 @@ def oracle_c05_supply(run, ops, impl):
         kv = dict(x.split("=", 1) for x in (op + " " + ob).split() if "=" in x)
         res = ob.split()[0]
         feat = set(kv.get("feat", "-").split("+")) - {"-"}
+        has_pc = bool(feat & {"pcmove", "pcfail", "pcquery"})
+        # a frame is undone: statically (a callee that reverts / a failing precompile call / the top frame reverts) or as seen
+        # on the receipt (the programs log a marker after every CALL/CREATE that reported failure)
+        undone = res == "vmerr" or bool(feat & {"rev", "pcfail", "toprev"}) or int(kv.get("failedCalls", "0")) > 0
         if res == "panic":
-            sig = "C05:panic-in-tx:%s" % ("selfdestruct+precompile" if ("sd" in feat and feat & {"pcmove", "pcfail", "pcquery"}) else "+".join(sorted(feat)) or "-")
-            out.append(V(sig, {"line": i + 1, "op": op}))
+            where = ("undone-precompile-frame" if has_pc and undone else "selfdestruct+precompile" if has_pc and "sd" in feat else
+                     "precompile" if has_pc else "+".join(sorted(feat)) or "-")
+            out.append(V("C05:panic-in-tx:%s:%s" % (kv.get("panicClass", "other"), where), {"line": i + 1, "op": op}))
             continue
         sd, bd = int(kv.get("supplyDelta", "0")), int(kv.get("balancesDelta", "0"))
         if sd == 0 and bd == 0:
             continue
-        has_pc = bool(feat & {"pcmove", "pcfail", "pcquery"})
-        undone = res == "vmerr" or bool(feat & {"rev", "pcfail", "toprev"})
         if has_pc and undone:
             sig = "C05:supply-changed:tx-with-undone-precompile-frame:%s" % ("increase" if sd > 0 else "decrease")
         else:
